@@ -464,10 +464,11 @@ def check_events(events, pre, post, writes, rec, counters, suppressed=False,
         node = cands[0] if len(cands) == 1 else None
         counters['callback_receiver_by_registry'] += 1
       if node is None:
+        # The harness cannot tell which node owns the callback (copies made by
+        # the library share the callback object of their source, so the
+        # registry is ambiguous): the event is not judged. This is a limit of
+        # the observation, never reported as a violation.
         counters['callback_receiver_unresolved'] += 1
-        problems.append(('payload-target',
-                         f'{who!r} fired with {len(payload)} update(s) whose '
-                         'target/relative path do not lead to one receiver', None))
         continue
       e = rec.known.get(id(node))
       if e is not None and e[0] is node and e[1] is not who:
